@@ -1,9 +1,10 @@
 """C02 — restart is lossless.
 
-Decided statically: five necessary structural facts — sequence continuation, the replay-skip and compaction
+Decided statically: necessary structural facts — sequence continuation, the replay-skip and compaction
 "covered" predicates imply `entry seq ≤ snapshot seq`, the active log segment is never unlinked and every
-non-unlinked segment stays listed, the writer's and the reader's operation tables agree, and tombstone
-compaction rebuilds from live documents only.  Equality of recovered and live state over histories × configurations
+non-unlinked segment stays listed, the writer's and the reader's operation tables agree, tombstone
+compaction rebuilds from live documents only, every sequence number numbers one entry and the snapshot claims only numbers already handed out,
+the initial documents are snapshotted before the constructor returns, and a new segment is named by a fresh sub-millisecond id.  Equality of recovered and live state over histories × configurations
 and floating-point idempotence of normalisation are not decided.
 """
 import re
@@ -11,11 +12,13 @@ import re
 from kvstatic import flow, rt, util
 
 MANIFEST = {
-    'text': 'Decides five structural facts each of which is a necessary condition of lossless restart: the recovered '
+    'text': 'Decides structural facts each of which is a necessary condition of lossless restart: the recovered '
             'sequence counter continues from max(snapshot seq, every replayed or skipped entry seq)+1; every skip of a log '
             'entry at replay and every "covered" verdict in log compaction is established by a comparison that implies '
             'entry seq ≤ snapshot seq; the active segment is never unlinked and kept segments stay listed; writer and '
-            'reader operation tables agree variant by variant; tombstone compaction copies live documents only. '
+            'reader operation tables agree variant by variant; tombstone compaction copies live documents only; fetch_add(n) numbers exactly n '
+            'entries and create_snapshot records next_wal_seq − c, c ≥ 1; with_persistence returns Ok only after the baseline snapshot unless the '
+            'backend is empty; segment names come from file_id() read in microseconds or finer. '
             'It decides these parts, not equality of recovered and live state.',
     'design_ref': 'DESIGN.md §4.2',
     'note': 'Trusted base: rustc MIR, integer normal form of comparisons (strict/non-strict, ±1), origin tracing '
